@@ -503,9 +503,34 @@ where
         let mut v = vec![];
         for ri in 0..self.ranges.len() as u8 {
             v.push(vec![op_q(ri, o.t, TAKE_ALL), op_q(0, o.t, TAKE_ALL)]);
+            if o.t < self.tmax {
+                // the same query again at every later time (a stale per-list bound shows only later)
+                let mut h = vec![op_q(ri, o.t, TAKE_ALL)];
+                for t2 in o.t + 1..=self.tmax {
+                    h.push(op_q(ri, t2, TAKE_ALL));
+                }
+                v.push(h);
+                v.push(vec![op_q(ri, o.t, 1), op_q(ri, o.t + 1, TAKE_ALL), op_q(0, self.tmax, TAKE_ALL)]);
+            }
         }
         v.push(vec![K_RESTART << 24, op_q(0, 0, TAKE_ALL)]);
         v.push(vec![K_CLEAR << 24, op_q(0, o.t, TAKE_ALL)]);
+        v
+    }
+    fn query_ops(&self, o: &SObj<R>) -> Vec<u32> {
+        let mut v = vec![];
+        for ri in 0..self.ranges.len() as u8 {
+            for t in o.t..=self.tmax {
+                v.push(op_q(ri, t, TAKE_ALL));
+            }
+            v.push(op_q(ri, o.t, 1));
+        }
+        v
+    }
+    fn update_ops(&self, o: &SObj<R>) -> Vec<u32> {
+        let mut v = vec![];
+        self.enabled(o, &mut v);
+        v.retain(|x| x >> 24 != K_Q);
         v
     }
     fn twin(&self, hist: &[Step], cx: &mut Cx) -> Option<SObj<R>> {
